@@ -29,6 +29,7 @@ def _e2e(ck):
     from harness import e2e
     items = e2e.exit_code_cases(random.Random(ck.seed * 31 + 5), 18 if ck.tier == "quick" else 150)
     e2e.check_exit_codes(ck, items)
+    e2e.check_cancel_cli(ck, pidnum=5)
 
 
 def run(ck):
